@@ -28,7 +28,7 @@ def _setup(src, n, nconf, strategies=STRATEGIES, same_app=True):
         name = f'c{k}'
         where = src.pick(f'where{k}', _subsets(n, 1))
         for i in range(n):
-            core.add_process(ids[i], group, name, PS.STOPPED)
+            core.add_process(ids[i], group, name, PS.STOPPED, stopwaitsecs=100)
         p = core.context.applications[group].processes[name]
         for i in where:
             core.process_event(ids[i], group, name, PS.STARTING)
@@ -113,8 +113,12 @@ def conciliate(src, n=3, nconf=2, strategies=STRATEGIES, same_app=True, closure=
     if order == 'lifo':
         pending.reverse()
     tick_between = src.pick_flag('tick_between_acks')
+    # every Supervisor acknowledges at once (STOPPING); the processes then die in the chosen order, possibly slowly
+    # (stopwaitsecs = 100: a slow stop is not a given-up stop, which is the subject of C10)
     for kind, ident, ns in pending:
-        sim.ack_stop(ident, ns)
+        sim.event(ident, ns, PS.STOPPING)
+    for kind, ident, ns in pending:
+        sim.event(ident, ns, PS.STOPPED)
         if tick_between:
             FC.cluster_round(core)
     later = []
